@@ -97,6 +97,10 @@ def gen_cases(tier, seed):
                         # a result that *is* an exception object (returned, not raised)
                         cases.append({'kind': 'dfs', 'n': n, 'capacity': cap, 'return_x': rx, 'return_exceptions': rexc,
                                       'plan': 'errval', 'fail_at': rng.randrange(n), 'max_runs': 900 if tier == 'quick' else 5000})
+                        # the submission of an element raises (func raises instead of returning a future), with / without preprocessor
+                        for plan in ('subfail', 'subfail+pre'):
+                            cases.append({'kind': 'dfs', 'n': n, 'capacity': cap, 'return_x': rx, 'return_exceptions': rexc,
+                                          'plan': plan, 'fail_at': rng.randrange(n), 'max_runs': 900 if tier == 'quick' else 5000})
     # (b) seeded
     nb = 120 if tier == 'quick' else 3000
     for i in range(nb):
@@ -172,9 +176,10 @@ def run_case(case):
         items = list(range(100, 100 + n))
         fail = {items[case['fail_at']]} if case['plan'] == 'fail' else set()
         reject = {items[case['fail_at']]} if case['plan'] == 'reject' else set()
-        preproc = case['plan'] == 'reject'
+        preproc = case['plan'] in ('reject', 'subfail+pre')
         errval = {items[case['fail_at']]} if case['plan'] == 'errval' else set()
-        exp_out, exp_term = H.expected_outputs(items, fail, reject, case['return_x'], case['return_exceptions'], preproc, errval)
+        subfail = {items[case['fail_at']]} if case['plan'].startswith('subfail') else set()
+        exp_out, exp_term = H.expected_outputs(items, fail, reject, case['return_x'], case['return_exceptions'], preproc, errval, subfail)
         prefix = []
         orders = set()
         runs = 0
@@ -184,7 +189,7 @@ def run_case(case):
             try:
                 out, term, src = watch.run_bounded(
                     lambda: H.run_fifo_direct(S, items, capacity=cap, return_x=case['return_x'], return_exceptions=case['return_exceptions'],
-                                              fail=fail, reject=reject, preproc=preproc, errval=errval, controller=ctl, ledger=ledger),
+                                              fail=fail, reject=reject, preproc=preproc, errval=errval, subfail=subfail, controller=ctl, ledger=ledger),
                     BOUND, 'fifo_stream run')
             except watch.Hang as h:
                 viol.append({'mech': 'fifo_stream/hang', 'msg': f'run did not finish; completion choices {prefix}', 'stacks': h.stacks})
@@ -221,7 +226,8 @@ def run_case(case):
         fail -= reject
         # results that *are* exception objects (returned, not raised) are ordinary results
         errval = {x for x in items if case['seed'] % 3 == 0 and rng.random() < 0.2} - reject - fail
-        exp_out, exp_term = H.expected_outputs(items, fail, reject, case['return_x'], case['return_exceptions'], preproc, errval)
+        subfail = ({x for x in items if rng.random() < 0.05} - reject) if kind == 'direct' and case['seed'] % 4 == 1 else set()
+        exp_out, exp_term = H.expected_outputs(items, fail, reject, case['return_x'], case['return_exceptions'], preproc, errval, subfail)
         pr = gates.make_priorities(case['policy'], n, rng)
         ctl = gates.Controller(priorities=pr, settle=0.0005 if n > 60 else 0.0015, max_settle=0.02).start()
         ledger = gates.Ledger()
@@ -242,7 +248,7 @@ def run_case(case):
             with fz:
                 if kind == 'direct':
                     fn = lambda: H.run_fifo_direct(S, items, capacity=case['capacity'], return_x=case['return_x'],  # noqa: E731
-                                                   return_exceptions=case['return_exceptions'], fail=fail, reject=reject, errval=errval,
+                                                   return_exceptions=case['return_exceptions'], fail=fail, reject=reject, errval=errval, subfail=subfail,
                                                    preproc=preproc, controller=ctl, ledger=ledger, consumer_pause=pause, src_pause=src_pause)
                 else:
                     fn = lambda: H.run_parmap_thread(S, items, concurrency=case['concurrency'], return_x=case['return_x'],  # noqa: E731
